@@ -146,7 +146,8 @@ def reload_unit(mode, cached):
             fresh = RiscvSimulation(mode=mode)
         st = sim.state
         # leftovers of earlier loads (a load never runs the program: registers, pipeline, counters are untouched)
-        st.instruction_memory.write_instructions([ADDI(1, 1, 1), ADD(2, 2, 2)])
+        if sym_bool("an_earlier_load_left_instructions"):       # (a failed or data-only load leaves data but no instructions)
+            st.instruction_memory.write_instructions([ADDI(1, 1, 1), ADD(2, 2, 2)])
         if cached:
             st.memory.memory.memory_file = {LO: UInt8(sym_int("junk0", 0, 255)), LO + 5: UInt8(sym_int("junk1", 0, 255))}
         else:
